@@ -1058,6 +1058,12 @@ class Interp:
             if r is not None:
                 return r
             raise Unsupported('attribute %r of a text sink' % name, node)
+        if isinstance(obj, VRef) and obj.classes and obj.classes[0] in self.engine.pseudo_classes \
+                and len(obj.classes) == 1:
+            r = self.engine.pseudo_classes[obj.classes[0]](self, obj, name, node)
+            if r is not None:
+                return r
+            raise Unsupported('attribute %r of a %s' % (name, obj.classes[0]), node)
         if isinstance(obj, VRef):
             r = self._getattr_multi(obj, name, node)
             if r is not None:
